@@ -429,6 +429,21 @@ def check_launch_coverage(ctx, KE, fam, mode, rule="R7-launch-grid"):
             pass
         if any(blocks.eq(fm) for fm in forms):
             ctx.holds(rule, key, f"grid = ceil(K/{T!r})*{T!r} >= K", where); continue
+        # the same idiom with room to spare: floor((K + T - 1 + d)/T) or ceil((K + d)/T) with a constant d >= 0 launches idle threads, which the
+        # device guard (checked above) masks
+        spare = None
+        if len(blocks.m) == 1 and not blocks.p and blocks.c == C(1):
+            (at_, e_), = blocks.m.items()
+            if e_ == 1 and at_.tag == "fn" and at_.name in ("floor", "ceil") and len(at_.args) == 1:
+                try:
+                    r_ = (at_.args[0] * T - K).constval()
+                    if r_ is not None and r_.im == 0:
+                        need = (T - 1).constval().re if at_.name == "floor" else 0
+                        if r_.re >= need: spare = r_.re - need
+                except (Unknown, AttributeError):
+                    pass
+        if spare is not None:
+            ctx.holds(rule, key, f"grid covers K with {spare} spare threads (masked by the device guard)", where); continue
         # not the ceiling-division idiom: look for a segment count the grid does not cover
         witness = None; failed = False
         tv = T.as_int() or 256
